@@ -11,13 +11,14 @@ sys.path.insert(0, '/verif/gen')
 import vlib
 import chanrun
 
-STRATA_QUICK = [('sync2', 3000), ('two', 2000), ('star', 1200), ('multi_srsw', 1500), ('multi_mrmw', 1500)]
-STRATA_THOROUGH = [('sync2', 120000), ('two', 80000), ('star', 40000), ('multi_srsw', 60000), ('multi_mrmw', 60000)]
+STRATA_QUICK = [('sync2', 3000), ('two', 2000), ('star', 1200), ('multi_srsw', 1500), ('multi_mrmw', 1500), ('pool', 1500), ('pipeline', 1000), ('nested', 800)]
+STRATA_THOROUGH = [('sync2', 120000), ('two', 80000), ('star', 40000), ('multi_srsw', 60000), ('multi_mrmw', 60000), ('pool', 60000), ('pipeline', 40000), ('nested', 30000)]
 
 # A fixed corpus, independent of VERIF_SEED: the networks on which the tree shows a known scheduler finding are
 # listed by id in /verif/known_networks.json, so a NEW failing network is reported even though it looks like D22.
 FIXED_SEED = 987654
-FIXED_CORPUS = [['two', 3000], ['star', 2500], ['multi_srsw', 3500], ['multi_mrmw', 3500]]
+FIXED_CORPUS = [['two', 3000], ['star', 2500], ['multi_srsw', 3500], ['multi_mrmw', 3500], ['pool', 4000],
+                ['pipeline', 3000], ['nested', 2000]]
 
 
 def failure_kind(r, run):
